@@ -5,6 +5,7 @@
   where two bodies must hash differently this is a hypothesis of the theorem.
 -/
 import Gts.Model.CacheFile
+import Gts.Lemmas.CacheFault
 namespace Gts.C13
 open Gts.Cache
 
@@ -460,6 +461,133 @@ theorem finished_mem_crashStates (hH : ∀ x, (H x).length = d) {r q : Bytes}
   rw [List.take_length, overwrite, hlen, drop_len (length_zeros _)]
   rfl
 
+/-! ### I/O faults of a writer that lives on (`Gts/Model/CacheFault.lean`)
+
+`crashStates` is a process that dies.  Here the process lives and individual I/O steps fail: the
+placeholder write of `CreateLevel`, the file writes flate performs during `File.Write`, and in
+`File.Close` the final flush, the seek behind the header, the read that hashes the body, the seek
+to 0 and the header write (`Session` = one fault entry per step; a failed write has written a
+prefix).  `runSession` follows file.go: every step of `Close` runs, `ret` keeps the FIRST error.
+The regenerated `CreateLevel` / `Write` / `Close`, run on the model's machine, are proved equal to
+`createF` / `writeF` / `closeF` in `Gts/Bridge/CacheFile.lean`. -/
+
+/-- **`Close` returns the FIRST error, in statement order**: a flate writer that is broken (an
+earlier `Write` failed) or whose final flush fails gives the flate error; else the seek behind the
+header; else the read that hashes the body; else the seek to 0; else the header write; else `nil`
+— for every writer state and every fault pattern. -/
+theorem close_first_error (deflate : Bytes → Bytes) (w : FWriter) (cf : CloseFaults) :
+    (closeF H d deflate w cf).2 = closeErrSpec w cf :=
+  closeF_err H d deflate w cf
+
+/-- **A failed final flush is reported**: whatever else happens in `Close` (the later steps still
+run and may all succeed), if `f.wr.Close()` fails then `Close` returns an error — the flate
+error, because nothing precedes it.  (The clause seeded change C13-g drops.) -/
+theorem close_reports_flush_failure (deflate : Bytes → Bytes) (w : FWriter) (cf : CloseFaults)
+    (k : Nat) (hflush : cf.flush = some k) :
+    (closeF H d deflate w cf).2 = some .flate := by
+  rw [closeF_err]
+  simp [closeErrSpec, hflush]
+
+/-- … stated on a whole session -/
+theorem session_reports_flush_failure (deflate : Bytes → Bytes) (r q : Bytes) (s : Session)
+    (k : Nat) (hflush : s.close.flush = some k) :
+    (runSession H d deflate r q s).closeErr = some .flate := by
+  simp only [runSession]
+  exact close_reports_flush_failure deflate _ _ k hflush
+
+/-- **A failed `Write` is reported again by `Close`** (flate's write error is sticky): if any
+`Write` of the session returned an error, `Close` returns an error too. -/
+theorem write_failure_reported_by_close (deflate : Bytes → Bytes) (r q : Bytes) (s : Session)
+    (hw : ∃ e ∈ (runSession H d deflate r q s).writeErrs, e ≠ none) :
+    (runSession H d deflate r q s).closeErr = some .flate := by
+  simp only [runSession] at hw ⊢
+  rw [closeF_err]
+  have := writesF_err_broken deflate s.writes _ hw
+  simp [closeErrSpec, this]
+
+/-- **An error-free writer leaves a faithful entry.**  For EVERY fault pattern: if `CreateLevel`,
+every `Write` and `Close` returned no error, then the file on disk is exactly
+`finish r q w` for `w` = everything that was written — `r ‖ q ‖ H (deflate w) ‖ deflate w` by
+`finish_eq`.  Arbitrary digest and codec; no hypothesis on them. -/
+theorem close_ok_roundtrip (deflate : Bytes → Bytes) (r q : Bytes) (s : Session)
+    (hclean : (runSession H d deflate r q s).clean = true) :
+    (runSession H d deflate r q s).disk = finish H d deflate r q s.written := by
+  simp only [runSession, SessionResult.clean, Bool.and_eq_true, Option.isNone_iff_eq_none,
+    List.all_eq_true] at hclean ⊢
+  obtain ⟨⟨hc, hw⟩, hcl⟩ := hclean
+  -- CreateLevel returned nil: the placeholder is on disk
+  have hcreate : s.create = none := by
+    cases h : s.create with
+    | none => rfl
+    | some k => rw [h] at hc; simp [createF] at hc
+  rw [hcreate] at hw hcl ⊢
+  simp only [createF] at hw hcl ⊢
+  -- every Write returned nil: the writer only collected the bytes
+  have hws := writesF_clean deflate s.writes ⟨zeros (3 * d), 3 * d, r, q, [], false⟩ rfl hw
+  rw [hws] at hcl ⊢
+  -- Close returned nil: no step failed
+  rw [closeF_err] at hcl
+  obtain ⟨-, hcf⟩ := closeErrSpec_none hcl
+  rw [hcf, closeF_nofault H d deflate _ (by simp [zeros]) rfl]
+  simp [finish, write, create, Session.written]
+
+/-- … so it opens and reads back exactly what was written (`open_close`) -/
+theorem close_ok_reads_back (hH : ∀ x, (H x).length = d)
+    (deflate : Bytes → Bytes) (inflate : Bytes → Option Bytes) {r q : Bytes}
+    (hr : r.length = d) (hq : q.length = d) (s : Session)
+    (hcodec : inflate (deflate s.written) = some s.written)
+    (hclean : (runSession H d deflate r q s).clean = true) :
+    openRead H d inflate (runSession H d deflate r q s).disk r q = .ok s.written := by
+  rw [close_ok_roundtrip deflate r q s hclean]
+  exact open_close hH deflate inflate hr hq _ hcodec
+
+/-- **What is on disk after a reported failure.**  If `CreateLevel` worked and, in `Close`, the two
+seeks, the hashing read and the header write work, then — WHATEVER happened to the body writes and
+the final flush — `Close` leaves a well-formed entry `r ‖ q ‖ H body' ‖ body'` over whatever part
+`body'` of the compressed stream reached the disk: `Open` ACCEPTS it.  So a failure reported by
+`Write` or `Close` must be acted upon by the caller (cmd/gts/io.go `ioDelegate.Close` removes the
+entry when `d.cache.Close()` returns an error: `Gts.Bridge.CacheFile.ioClose_discards_on_error`);
+the file itself does not show it (`failed_close_may_verify`). -/
+theorem failed_close_entry_verifies (hH : ∀ x, (H x).length = d)
+    (deflate : Bytes → Bytes) {r q : Bytes} (hr : r.length = d) (hq : q.length = d) (s : Session)
+    (hcreate : s.create = none)
+    (htail : s.close.seekBody = none ∧ s.close.copy = none ∧ s.close.seekStart = none
+      ∧ s.close.header = none) :
+    ∃ body', (runSession H d deflate r q s).disk = finished H r q body'
+      ∧ openf H d (runSession H d deflate r q s).disk r q = .ok body' := by
+  obtain ⟨h2, h3, h4, h5⟩ := htail
+  simp only [runSession, hcreate, createF]
+  generalize hw0 : (⟨zeros (3 * d), 3 * d, r, q, [], false⟩ : FWriter) = w0
+  have hend0 : w0.atEnd := by subst hw0; simp [FWriter.atEnd, zeros]
+  have hend := writesF_atEnd deflate s.writes w0 hend0
+  obtain ⟨t, hdata⟩ := writesF_data deflate s.writes w0 hend0
+  obtain ⟨hr1, hq1⟩ := writesF_rq deflate s.writes w0
+  generalize (writesF deflate w0 s.writes).1 = w1 at hend hdata hr1 hq1
+  have hd0 : w0.data = zeros (3 * d) := by subst hw0; rfl
+  have hr0 : w0.r = r := by subst hw0; rfl
+  have hq0 : w0.q = q := by subst hw0; rfl
+  rw [hd0] at hdata
+  rw [hr0] at hr1
+  rw [hq0] at hq1
+  unfold FWriter.atEnd at hend
+  -- what the flush step leaves on disk is the placeholder followed by some bytes
+  have key : ∀ body', (w1.data ++ body').drop (3 * d) = t ++ body' := by
+    intro b
+    rw [hdata, List.append_assoc]
+    exact drop_len (length_zeros _)
+  have hfin : ∀ body', writeAt (w1.data ++ body') 0 (w1.r ++ w1.q ++ H (t ++ body'))
+      = finished H r q (t ++ body') := by
+    intro b
+    have hlen : (r ++ q ++ H (t ++ b)).length = 3 * d := by simp [hr, hq, hH]; omega
+    rw [writeAt_zero, overwrite, hr1, hq1, hlen, key]
+    rfl
+  refine ⟨t ++ flushed deflate w1 s.close, ?_⟩
+  have hdisk : (closeF H d deflate w1 s.close).1 = finished H r q (t ++ flushed deflate w1 s.close) := by
+    rw [closeF_tail_ok H d deflate w1 s.close hend h2 h3 h4 h5, key]
+    exact hfin _
+  rw [hdisk]
+  exact ⟨rfl, open_complete hH hr hq _⟩
+
 /-! ### non-vacuity, and the hypotheses cannot be dropped
 
 A toy digest of size 1 (sum of the bytes mod 256) and the identity codec instantiate every
@@ -511,6 +639,69 @@ theorem crash_unsafe_without_hypothesis :
   intro h
   have := h [0, 0, 0, 1, 255] (by decide) [1, 255] (by decide)
   revert this
+  decide
+
+/-! ### I/O faults: non-vacuity and witnesses (toy digest, identity codec) -/
+
+/-- `close_ok_roundtrip` instantiated: two `Write` calls, no fault — the caller sees no error and
+the entry is the finished file -/
+example : (runSession toyH 1 id [7] [9] ⟨none, [([1, 2], none), ([3], none)], {}⟩).clean = true
+    ∧ (runSession toyH 1 id [7] [9] ⟨none, [([1, 2], none), ([3], none)], {}⟩).disk = [7, 9, 6, 1, 2, 3] := by
+  decide
+
+example : openRead toyH 1 some (runSession toyH 1 id [7] [9] ⟨none, [([1, 2], none), ([3], none)], {}⟩).disk
+    [7] [9] = .ok [1, 2, 3] :=
+  close_ok_reads_back toyH_size id some rfl rfl _ rfl (by decide)
+
+/-- `close_reports_flush_failure` instantiated: the flush fails after 2 of 3 bytes, every later step
+of `Close` works -/
+example : (closeF toyH 1 id ⟨zeros 3, 3, [7], [9], [1, 2, 3], false⟩ { flush := some 2 }).2 = some .flate :=
+  close_reports_flush_failure id _ _ 2 rfl
+
+/-- `session_reports_flush_failure` instantiated -/
+example : (runSession toyH 1 id [7] [9] ⟨none, [([1, 2, 3], none)], { flush := some 2 }⟩).closeErr = some .flate :=
+  session_reports_flush_failure id [7] [9] _ 2 rfl
+
+/-- `write_failure_reported_by_close` instantiated: the second `Write` fails -/
+example : (runSession toyH 1 id [7] [9] ⟨none, [([1], none), ([2, 3], some 1)], {}⟩).closeErr = some .flate :=
+  write_failure_reported_by_close id [7] [9] _ ⟨some .flate, by decide, by decide⟩
+
+/-- `close_first_error`: a failed seek to 0 makes `Close` report the seek error, and the header is
+APPENDED behind the body (the offset stayed at the end of the file) -/
+example : closeF toyH 1 id ⟨zeros 3, 3, [7], [9], [1, 2, 3], false⟩ { seekStart := some 0 }
+    = ([0, 0, 0, 1, 2, 3, 7, 9, 6], some .seek) := by decide
+
+/-- **A reported failure can leave an entry that verifies and holds a prefix.**  The final flush
+fails after 2 of the 3 body bytes; `Write` returned `nil`, `Close` returns the flate error — and the
+file on disk is a well-formed entry which `Open` accepts and from which exactly the PREFIX
+`[1, 2]` is read back.  Nothing in the file shows the failure: the caller has to discard the entry
+when `Close` fails (cmd/gts/io.go `ioDelegate.Close` does; seeded change C13-g makes `Close`
+return `nil` here). -/
+theorem failed_close_may_verify :
+    (runSession toyH 1 id [7] [9] ⟨none, [([1, 2, 3], none)], { flush := some 2 }⟩).writeErrs = [none]
+    ∧ (runSession toyH 1 id [7] [9] ⟨none, [([1, 2, 3], none)], { flush := some 2 }⟩).closeErr = some .flate
+    ∧ openRead toyH 1 some
+        (runSession toyH 1 id [7] [9] ⟨none, [([1, 2, 3], none)], { flush := some 2 }⟩).disk [7] [9]
+        = .ok [1, 2] := by
+  decide
+
+/-- `failed_close_entry_verifies` instantiated on the same session -/
+example : ∃ body', (runSession toyH 1 id [7] [9] ⟨none, [([1, 2, 3], none)], { flush := some 2 }⟩).disk
+      = finished toyH [7] [9] body'
+    ∧ openf toyH 1 (runSession toyH 1 id [7] [9] ⟨none, [([1, 2, 3], none)], { flush := some 2 }⟩).disk
+      [7] [9] = .ok body' :=
+  failed_close_entry_verifies toyH_size id rfl rfl _ rfl ⟨rfl, rfl, rfl, rfl⟩
+
+/-- **The error of `CreateLevel` has to be heeded too** (why `clean` includes it): the placeholder
+write fails after 1 of 3 bytes, every `Write` and `Close` then return `nil` — and the entry verifies
+and yields `[3]` instead of `[1, 2, 3]`.  (`TryCache` removes the entry's name when `CreateLevel`
+returns an error.) -/
+theorem create_error_must_be_heeded :
+    (runSession toyH 1 id [7] [9] ⟨some 1, [([1, 2, 3], none)], {}⟩).createErr = some .write
+    ∧ (runSession toyH 1 id [7] [9] ⟨some 1, [([1, 2, 3], none)], {}⟩).writeErrs = [none]
+    ∧ (runSession toyH 1 id [7] [9] ⟨some 1, [([1, 2, 3], none)], {}⟩).closeErr = none
+    ∧ openRead toyH 1 some (runSession toyH 1 id [7] [9] ⟨some 1, [([1, 2, 3], none)], {}⟩).disk [7] [9]
+        = .ok [3] := by
   decide
 
 end Gts.C13
